@@ -338,6 +338,13 @@ class Session:
         self.pending.append((None, text, False, errorish, "x"))
         return True
 
+    def greet(self, text: str) -> bool:
+        """The device emits its greeting (`Grbl …`): an ordinary line on the wire, nobody's reply."""
+        if self.lost:
+            return False
+        self.pending.append((None, text, False, False, "g"))
+        return True
+
     def lose(self) -> bool:
         if self.lost:
             return False
@@ -387,6 +394,7 @@ class Session:
                 d["ack"] = "1" if self.delegate._ack_event.is_set() else "0"
                 d["err"] = "1" if self.delegate._device_error is not None else "0"
                 d["priq"] = ",".join(code_of(c, self.stmt_index) for c in list(pc.priqueue.queue)) or "-"
+                d["ln"] = "1" if pc._send_line_numbers else "0"
             except Exception:  # torn down concurrently
                 pass
         return d
